@@ -241,7 +241,9 @@ class Exec:
         solver answer `unknown` after the full timeout) and only the quantifier-free part of the path condition is used."""
         self.stats["feas_checks"] += 1
         s = z3.Solver()
-        s.set("timeout", self.feas_timeout)
+        # a deterministic resource limit (not wall time) so that the set of explored paths does not depend on machine load
+        s.set("rlimit", 2000000)
+        s.set("timeout", 20000)
         qf = [h for h in st.pc if not _has_quantifier(h)]
         fs = qf + ([extra] if extra is not None else [])
         for h in self.lib.theory_axioms(fs):
